@@ -215,6 +215,21 @@ Definition call_outcome (t : table) (noglob : bool) (ci : callin) : option (list
   | Some (Some ts) => let (b, c) := relay ci in (Some (ts, b), c)
   end.
 
+(* ---- message size limits ----
+   main.go:185-186 newGrpcProxy: the listener's server gets MaxRecvMsgSize(GRPCMaxRxMsgSize) and
+   MaxSendMsgSize(GRPCMaxTxMsgSize); grpc_handler.go:264 newConnection: the connection to the
+   backend gets MaxCallRecvMsgSize(GRPCMaxRxMsgSize) (no send limit).  Direction convention of
+   the code today: Rx bounds everything fabio RECEIVES (the caller's requests, and the backend's
+   responses), Tx bounds what fabio SENDS to the caller (responses).  grpc-go compares the
+   payload length with the limit (a message of exactly the limit passes) and answers
+   ResourceExhausted.  One request of [req] bytes, one response of [resp] bytes. *)
+Definition code_resource_exhausted : N := 8.
+Record sized := mksized { sz_backend_got : bool; sz_caller_got : bool; sz_code : N }.
+Definition relay_sized (rx tx req resp : N) : sized :=
+  if rx <? req then mksized false false code_resource_exhausted
+  else if (rx <? resp) || (tx <? resp) then mksized true false code_resource_exhausted
+  else mksized true true 0.
+
 (* ---- the proxy as a state machine over histories ---- *)
 Record state := mks { s_tbl : table; s_pool : pstate }.
 Inductive op :=
